@@ -1026,6 +1026,17 @@ def pred_lang(test, var, alpha, atom=None):
                     raise AnalysisError('membership in the empty string')
                 res = rl(cls_ + '.*') if norm(l.slice) == '0' else rl('.*' + cls_)
                 return res if isinstance(op, ast.In) else res.complement()
+            if isinstance(r, ast.Constant) and isinstance(r.value, str) and isinstance(op, (ast.In, ast.NotIn)) \
+                    and isinstance(l, ast.Subscript) and norm(l.value) == var and isinstance(l.slice, ast.Slice) and l.slice.step is None \
+                    and l.slice.lower is None and isinstance(l.slice.upper, ast.Constant) and isinstance(l.slice.upper.value, int) and l.slice.upper.value > 0:
+                # x[:k] in "chars": the prefix slice is a substring of the constant -- the empty prefix (of the empty string) always is
+                k_, S_ = l.slice.upper.value, r.value
+                subs = {S_[i:j] for i in range(len(S_) + 1) for j in range(i, min(len(S_), i + k_) + 1)}
+                res = None
+                for u in subs:
+                    piece = rl(re.escape(u) + '.*') if len(u) == k_ else rl(re.escape(u)) if u else rl('')
+                    res = piece if res is None else res.union(piece)
+                return res if isinstance(op, ast.In) else res.complement()
             if isinstance(l, ast.Constant) and isinstance(l.value, str) and norm(r) == '%s.strip()' % var and isinstance(op, (ast.In, ast.NotIn)) \
                     and len(l.value) == 1:
                 c_ = re.escape(l.value)
